@@ -22,7 +22,7 @@ _HOT_FUNCS = {"__array_finalize__", "__new__", "_wrap_result", "Array", "zip", "
 
 
 def scan():
-    sites = {"with": [], "store": [], "flag": [], "func": [], "mut": [], "glob": []}
+    sites = {"with": [], "store": [], "flag": [], "func": [], "mut": [], "glob": [], "pstore": []}
     dispatch_with = []  # (relpath, first body line, last body line)
     for root, dirs, files in os.walk(env.VECTOR_DIR):
         dirs.sort()
@@ -79,6 +79,20 @@ def scan():
                 params = {a.arg for a in fnode.args.args + fnode.args.kwonlyargs}
                 if fnode.args.vararg:
                     params.add(fnode.args.vararg.arg)
+                if fnode.name not in ("__init__", "__new__", "__post_init__"):
+                    # per-call state kept on an object that callers may share (``self.x = ...`` / ``param.x = ...`` outside
+                    # a constructor): the store and every later statement of the function is a window in which another
+                    # caller of the same object can overwrite it
+                    first = None
+                    for node in ast.walk(fnode):
+                        if isinstance(node, (ast.Assign, ast.AugAssign, ast.AnnAssign)):
+                            tg = node.targets if isinstance(node, ast.Assign) else [node.target]
+                            if any(isinstance(t, ast.Attribute) and isinstance(t.value, ast.Name) and t.value.id in params for t in tg):
+                                first = node.lineno if first is None else min(first, node.lineno)
+                    if first is not None:
+                        for sub in ast.walk(fnode):
+                            if isinstance(sub, ast.stmt) and sub is not fnode and sub.lineno >= first:
+                                sites["pstore"].append(f"{rel}:{sub.lineno}")
                 for node in ast.walk(fnode):
                     if isinstance(node, ast.AugAssign):
                         t = node.target
